@@ -434,6 +434,7 @@ type vxC07WFrame struct {
 	Size   int    `json:"size"`
 	Cancel string `json:"cancel,omitempty"` // "", "pre", "racy", "queued"
 	Spin   int    `json:"spin,omitempty"`   // scheduler yields before a racy / queued cancel
+	Late   bool   `json:"late,omitempty"`   // submitted alone after every other caller has returned and an idle pause longer than the coalescing window
 }
 
 type vxC07Fault struct {
@@ -576,6 +577,9 @@ func vxC07DrawW(t *rapid.T) *vxC07WCase {
 	if (c.Fault.Kind == "none" || c.Fault.Kind == "cutat") && rapid.IntRange(0, 3).Draw(t, "chunked") == 0 {
 		c.Chunk = vxC07DrawChunk(t)
 	}
+	for i := rapid.SampledFrom([]int{0, 0, 1, 2, 3}).Draw(t, "late"); i > 0; i-- {
+		c.Frames = append(c.Frames, vxC07WFrame{Size: rapid.SampledFrom([]int{9, 30, 200}).Draw(t, "late_size"), Late: true})
+	}
 	return c
 }
 
@@ -611,6 +615,7 @@ type vxC07WOut struct {
 	stalled    bool
 	certain    int // writers cancelled while certainly queued
 	ctxRefused int // writers that returned a context error
+	late       bool
 }
 
 func vxC07IsCtxErr(err error) bool {
@@ -687,8 +692,11 @@ func vxC07RunWriters(c *vxC07WCase, fault vxC07Fault) (*vxC07WOut, error) {
 		}()
 	}
 	var stage1, stage2 []int
+	var late []int
 	for i, f := range c.Frames {
-		if f.Cancel == "queued" && fault.Kind == "stall-release" {
+		if f.Late {
+			late = append(late, i)
+		} else if f.Cancel == "queued" && fault.Kind == "stall-release" {
 			stage2 = append(stage2, i)
 		} else {
 			stage1 = append(stage1, i)
@@ -762,6 +770,18 @@ func vxC07RunWriters(c *vxC07WCase, fault vxC07Fault) (*vxC07WOut, error) {
 		}
 	}
 	client.Release()
+	// the late callers: one at a time, each after an idle pause longer than the coalescing window (whatever
+	// happened before - a failed flush, refused callers - has settled by then)
+	for _, i := range late {
+		if hang != nil {
+			break
+		}
+		time.Sleep(time.Duration(c.WindowUS)*time.Microsecond + 400*time.Microsecond)
+		launch(i, "")
+		if !vxC07Wait(done[i], vxC07Watchdog) {
+			hang = fmt.Errorf("watchdog: writeContext of late writer %d did not return within %v", i, vxC07Watchdog)
+		}
+	}
 	close(quit)
 	tap.Close()
 	for _, cf := range cancels {
@@ -793,6 +813,14 @@ func vxC07RunWriters(c *vxC07WCase, fault vxC07Fault) (*vxC07WOut, error) {
 		return nil, err
 	}
 	out.wire = wire
+	if wire.Torn != nil && wire.BytesAfterTorn > 0 {
+		// both writers keep the first Write error ("after it nothing more is written")
+		return nil, fmt.Errorf("%s writer: %d of %d bytes of a frame were written (transport error %q), then %d more bytes (%d complete frames) were written: the peer reads them as the rest of the torn frame",
+			c.Writer, len(wire.Torn), len(wire.TornOf), wire.TornErr, wire.BytesAfterTorn, len(wire.After))
+	}
+	if len(late) > 0 {
+		out.late = true
+	}
 	// whose frame is which
 	onWire := make([]int, n)
 	offered := make([]int, n)
@@ -914,9 +942,12 @@ func TestVxC07Writers(t *testing.T) {
 				}
 				note(o)
 				k.Class(wr + " " + c.Fault.Kind)
+				if o.late && (o.wire.Torn != nil || o.wire.ZeroFail > 0) {
+					k.Class("late callers after a failed Write and an idle window")
+				}
 				if o.wire.Torn != nil {
 					if o.wire.BytesAfterTorn > 0 {
-						k.Class("wire: torn-then-more (writer level: counted only)")
+						k.Class("wire: torn-then-more")
 					} else {
 						k.Class("wire: torn frame last")
 					}
